@@ -252,7 +252,15 @@ class CaseStage(Stage):
     def replay(self, case) -> Res:
         if self.reset is not None:
             self.reset()
-        return _run_one(self, case)
+        r = _run_one(self, case)
+        if r.ok:
+            # A defect that corrupts state shared between calls (e.g. an input array consumed by the code under
+            # test) only shows on the second execution: run the case once more in the same process.
+            r2 = _run_one(self, case)
+            if not r2.ok:
+                r2.msg = "(on the second execution of the same case in one process) " + r2.msg
+                return r2
+        return r
 
 
 class CustomStage(Stage):
